@@ -27,6 +27,14 @@ Check (C13_filter_exact : forall pats ci dfa r o,
      sem (Filter pats ci dfa r) o = sem r o /\ hsem (Filter pats ci dfa r) o = hsem r o /\
      forall us, run_op (Filter pats ci dfa r) (o, us) = run_op r (o, us))).
 Print Assumptions C13_filter_exact.
+Check (C13_filter_case_sensitive_drops_iff_substring : forall pats name,
+  dropped pats false name <-> exists pat pre suf, In pat pats /\ name = pre ++ pat ++ suf).
+Print Assumptions C13_filter_case_sensitive_drops_iff_substring.
+Check (C13_filter_case_insensitive_drops_iff_substring_up_to_ascii_case : forall pats name,
+  dropped pats true name <->
+  exists pat pre mid suf, In pat pats /\ name = pre ++ mid ++ suf /\
+    Forall2 (fun a b => a = b \/ (65 <= a <= 90 /\ b = a + 32) \/ (65 <= b <= 90 /\ a = b + 32))%N pat mid).
+Print Assumptions C13_filter_case_insensitive_drops_iff_substring_up_to_ascii_case.
 Check (C13_case_folding_is_ascii_only : forall c,
   lower c = ascii_lower c /\ ascii_lower c = (if ((65 <=? c) && (c <=? 90))%N then c + 32 else c)%N).
 Print Assumptions C13_case_folding_is_ascii_only.
